@@ -104,6 +104,16 @@ CLAIMS["C01"] = dict(level="other",
     note="TLC says nothing about byte strings it never names: the bytes of a stimulus class are seeded random draws (exhaustive:false). Trusted: the harness (pipes, paused clock, watchdog). Not varied: rx buffer sizes other "
          "than the defaults; the TCP / serial / TLS physical layers are replaced by an in-memory pipe.")
 
+CLAIMS["C18"] = dict(
+    text="TimeSync.tla models the two procedures step by step on both sides (master/tasks/time.rs states, the outstation's delay-measure / record-current-time / write handlers) over a channel with one-way delays, the "
+         "outstation's real and reported processing delay, the distance of the master's clock from 2^48-1, an application that still needs time and replies with unexpected objects; TLC checks the accuracy bound and "
+         "the success / failure classification for every parameter set of MC_TimeSync (delays 0 .. 70000 ms, equal and asymmetric). Every parameter set is then executed: honest ones by the real master against the real "
+         "outstation through a byte-forwarding proxy with scripted virtual delays (harness pair mode), lying / malformed ones by the real master against scripted replies. Mon_C18 (TLC trace validation) compares the time "
+         "handed to OutstationApplication::write_absolute_time with the master's clock at that virtual instant, the reported outcome with the statement, and both with the prediction of TimeSync.tla for the delays observed.",
+    ref="§7 C18", technique="TLA+ model checking (TLC) + trace validation of replayed parameter sets (paired master and outstation)",
+    note="Trusted: TLC, TimeSync.tla, the harness proxy and tokio's paused clock. Delays from a boundary set, not all of 0..65535+; the outstation's processing time is applied by the proxy to the reply that reports it; "
+         "unrelated traffic interleaved with the procedure is not generated; 3 ms of slack for the harness's settle steps.")
+
 def main():
     head = subprocess.run(["git", "-C", "/repo", "log", "--format=%h %s"], capture_output=True, text=True).stdout.splitlines()
     hooks = [l.split()[0] for l in head if "verif hooks" in l]
@@ -125,7 +135,7 @@ def main():
         })
     na = [{"property_id": p, "reason": NA.get(p, "check not built yet (work in progress)")} for p in PROPS if p not in CLAIMS]
     m = {"version": 1,
-         "setup_cmd": "cd /verif/harness && cargo build --offline 2>&1 | tail -2 && cd /verif/spec && for f in Trace_Outstation.tla TM_C03.tla TM_C04.tla TM_C06.tla TM_C07L.tla TM_C08.tla Trace_Link.tla TM_C05.tla TM_C07.tla TM_C11.tla TM_C12.tla TM_C13.tla TM_C14.tla Trace_Master.tla TM_C01.tla TM_C09.tla TM_C10.tla TM_C15.tla TM_C16.tla TM_C17.tla TM_C19.tla; do tla-sany $f > /dev/null || exit 1; done",
+         "setup_cmd": "cd /verif/harness && cargo build --offline 2>&1 | tail -2 && cd /verif/spec && for f in Trace_Outstation.tla TM_C03.tla TM_C04.tla TM_C06.tla TM_C07L.tla TM_C08.tla Trace_Link.tla TM_C05.tla TM_C07.tla TM_C11.tla TM_C12.tla TM_C13.tla TM_C14.tla Trace_Master.tla TM_C01.tla TM_C09.tla TM_C10.tla TM_C18.tla TM_C15.tla TM_C16.tla TM_C17.tla TM_C19.tla; do tla-sany $f > /dev/null || exit 1; done",
          "hooks": {"guard": "dnp3_verif",
                    "enable": "rustflags --cfg dnp3_verif in /verif/harness/.cargo/config.toml (the harness crate has a path dependency on /repo/dnp3, default-features off)",
                    "baseline_off_cmd": "cd /repo && cargo test --workspace --no-fail-fast --offline",
